@@ -54,7 +54,7 @@ impl Leg for Random {
         super::c09::strategy(tier, 31, 31)
     }
     fn check(c: &Case) -> Verdict {
-        check_case(&c.seq, c.w, c.m)
+        check_case(&c.full(), c.w, c.m)
     }
 }
 
